@@ -167,19 +167,33 @@ func (m *monitor) hook(v *sim.View, ev *sim.Event) {
 	if ev.Key.GK() == claimGK && ev.Actor == "claim" && ev.Before != nil && hasFin(ev.Before, finClaim) && (ev.After == nil || !hasFin(ev.After, finClaim)) {
 		ref := sim.Str(ev.Before, "spec", "resourceRef", "name")
 		m.order = append(m.order, "claim-finalizer-removed:"+ev.Key.Name)
+		// "its XR": the one the claim references and every other XR whose claim reference names it
+		names := []string{}
 		if ref != "" {
-			xr := v.Get(sim.Key{Group: "ex.org", Kind: "XThing", Name: ref})
+			names = append(names, ref)
+		}
+		for _, o := range v.List(xrGK) {
+			if n := sim.Str(o, "metadata", "name"); n != ref {
+				names = append(names, n)
+			}
+		}
+		for _, xn := range names {
+			xr := v.Get(sim.Key{Group: "ex.org", Kind: "XThing", Name: xn})
 			bound := false
 			if xr != nil {
 				cr, _, _ := unstructured.NestedMap(xr, "spec", "claimRef")
 				bound = sim.Str(cr, "name") == ev.Key.Name && sim.Str(cr, "namespace") == ev.Key.Namespace
 			}
 			if xr != nil && bound {
-				if !sim.Terminating(xr) && !m.xrDeletesByClaim[ref] {
-					m.add("claim-finalized-before-xr-deleted", fmt.Sprintf("%s: claim finalizer removed while its XR %s exists and no delete was issued for it", ev.Short(), ref))
+				suffix := ""
+				if xn != ref {
+					suffix = ":xr-not-referenced-by-claim"
+				}
+				if !sim.Terminating(xr) && !m.xrDeletesByClaim[xn] {
+					m.add("claim-finalized-before-xr-deleted"+suffix, fmt.Sprintf("%s: claim finalizer removed while its XR %s (claim reference %s/%s; the claim references %q) exists and no delete was issued for it", ev.Short(), xn, ev.Key.Namespace, ev.Key.Name, ref))
 				}
 				if sim.Str(ev.Before, "spec", "compositeDeletePolicy") == "Foreground" {
-					m.add("claim-finalized-before-xr-gone:foreground", fmt.Sprintf("%s: Foreground policy but XR %s still exists when the claim finalizer is removed", ev.Short(), ref))
+					m.add("claim-finalized-before-xr-gone:foreground"+suffix, fmt.Sprintf("%s: Foreground policy but XR %s still exists when the claim finalizer is removed", ev.Short(), xn))
 				}
 			}
 		}
@@ -232,6 +246,8 @@ type env struct {
 	defR     *definition.Reconciler
 	offR     *offered.Reconciler
 	xrC, clC *sim.Client
+	// clLag, when set, makes the claim controller's reads lag (its informer cache is behind)
+	clLag func(gk schema.GroupKind) (int64, bool)
 }
 
 func newEnv(seed uint64, ssa bool) *env { return newEnvWith(seed, ssa, false) }
@@ -245,7 +261,13 @@ func newEnvWith(seed uint64, ssa, realEngine bool) *env {
 	if err := xrk.ReconcileComposition(w, "comp"); err != nil {
 		panic(err)
 	}
-	e := &env{w: w, xrC: w.Client("xr"), clC: w.Client("claim")}
+	e := &env{w: w, xrC: w.Client("xr")}
+	e.clC = w.LaggingClient("claim", func(gk schema.GroupKind) (int64, bool) {
+		if e.clLag != nil {
+			return e.clLag(gk)
+		}
+		return 0, false
+	})
 	e.defEng = xrk.NewCapturingEngine(w, e.xrC)
 	e.offEng = xrk.NewCapturingEngine(w, e.clC)
 	if realEngine {
@@ -657,6 +679,10 @@ func revisionWorld(seed uint64, states []string) *sim.World {
 			entry["type"] = "Provider"
 		default:
 			entry["apiVersion"], entry["kind"] = "pkg.crossplane.io/v1beta1", "Provider"
+		}
+		if i > 0 && seed%2 == 0 {
+			// another package in the Lock depends on the package whose revision is deleted
+			entry["dependencies"] = []any{map[string]any{"package": "xpkg.example.org/acme/prov0", "type": "Provider", "constraints": ">=v0.0.0"}}
 		}
 		pkgs = append(pkgs, entry)
 	}
@@ -1150,6 +1176,61 @@ func runClaimDeletionFaults(c *kit.Ctx) {
 	}
 }
 
+// runStaleXRCacheThenDeletion is part J: while a claim is being bound (or once it is bound) one
+// reconcile of the claim controller reads XRs from a cache that has not seen the claim's XR yet;
+// later the user deletes the claim. Whatever that reconcile made of the missing XR, the claim's
+// finalizer goes only after EVERY XR bound to the claim was deleted.
+func runStaleXRCacheThenDeletion(c *kit.Ctx) {
+	for _, ssa := range []bool{false, true} {
+		for _, pol := range []string{"Background", "Foreground"} {
+			for _, when := range []string{"right-after-binding", "after-settling"} {
+				for stale := 1; stale <= 2; stale++ {
+					name := fmt.Sprintf("stale-xr-cache-then-claim-deletion/ssa=%v/%s/%s/stale-reconciles=%d", ssa, pol, when, stale)
+					if !c.Want(name) {
+						continue
+					}
+					e := newEnv(uint64(c.Seed)*239+uint64(stale), ssa)
+					e.settle(2)
+					m := newMonitor()
+					m.running[ctlComposite] = e.defEng.IsRunning(ctlComposite)
+					m.running[ctlClaim] = e.offEng.IsRunning(ctlClaim)
+					e.w.AddHook(m.hook)
+					from := e.w.LogLen()
+					frozen := e.w.RV() // the XR cache as it was before the claim existed
+					e.w.MustSeed("user", xrk.ClaimObject("ex.org/v1", "Thing", "ns1", "c0", map[string]any{"compositionRef": map[string]any{"name": "comp"}, "compositeDeletePolicy": pol}))
+					e.reconcileClaims()
+					if when == "after-settling" {
+						e.settle(3)
+					}
+					e.clLag = func(gk schema.GroupKind) (int64, bool) { return -frozen, gk == xrGK }
+					for k := 0; k < stale; k++ {
+						e.reconcileClaims()
+					}
+					e.clLag = nil
+					e.settle(4)
+					bound := 0
+					for _, o := range e.w.ListObjs(xrGK) {
+						if sim.Str(o, "spec", "claimRef", "name") == "c0" {
+							bound++
+						}
+					}
+					c.Count(fmt.Sprintf("stale_xr_cache_xrs_bound_to_claim_%d", bound), 1)
+					if cm := e.w.GetObj(sim.Key{Group: "ex.org", Kind: "Thing", Namespace: "ns1", Name: "c0"}); cm != nil {
+						_ = e.w.Client("user").Delete(ctx, &unstructured.Unstructured{Object: cm})
+					}
+					e.settle(6)
+					c.Eval(name, true)
+					c.Count("stale_xr_cache_then_deletion_cases", 1)
+					c.Count("monitor_evaluations", int64(m.checks))
+					for i, key := range m.keys {
+						c.Violate(key+":stale-xr-cache", name, m.whats[i], map[string]any{"ssa": ssa, "policy": pol, "when": when, "order": m.order, "trace": shortTrace(e.w, from, 80)})
+					}
+				}
+			}
+		}
+	}
+}
+
 // runVersionBump is part G: a claim is bound, then the XRD author makes another (newly added)
 // version the referenceable one - the definition and offered reconcilers restart the XR and claim
 // controllers for it - and then the claim is deleted. Whatever the claim controller makes of the
@@ -1386,6 +1467,7 @@ func main() {
 	c.Rule += " " + "Lock entries in the forms older versions wrote (type only, apiVersion+kind, Function as v1beta1)."
 	c.Rule += " " + "(1b) the deleted revision's controller reads the Lock through a cache that is behind another writer for 1-3 reconciles."
 	c.Rule += " " + "Part G: referenceable version bump, then claim deletion. Part H: Crossplane restarts during an XRD teardown held up by a third-party finalizer."
+	c.Rule += " " + "Part J: one or two claim reconciles behind an XR cache that has not seen the claim's XR, then deletion - every XR bound to the claim (not only the referenced one) precedes the finalizer. Revision-lock worlds in which another locked package depends on the deleted revision's package."
 	c.Assumptions = []string{"a stopped controller reconciles nothing; a running one reconciles every instance when scheduled", "part C: fake informers stand in for client-go shared informers (handler registrations, RemoveEventHandler errors); part D: the Usage is composed by label only, no XR reconciler runs"}
 	c.Floor = 100
 	n := c.N(400, 8000)
@@ -1422,6 +1504,9 @@ func main() {
 	}
 	if err := kit.Try(func() { runRestartDuringTeardown(c) }); err != nil {
 		c.Violate("panic:restart-during-teardown", "restart-during-teardown", err.Error(), nil)
+	}
+	if err := kit.Try(func() { runStaleXRCacheThenDeletion(c) }); err != nil {
+		c.Violate("panic:stale-xr-cache", "stale-xr-cache-then-claim-deletion", err.Error(), nil)
 	}
 	if err := kit.Try(func() { runVersionBump(c) }); err != nil {
 		c.Violate("panic:version-bump", "version-bump-then-claim-deletion", err.Error(), nil)
